@@ -156,6 +156,10 @@ class FileResolver:
                 filepath = current / filename
                 if not self._include_spec.match_file(filename):
                     continue
+                if filepath.is_symlink():
+                    # Like symlinked directories, symlinked files are not followed during
+                    # traversal (they may point outside the tree, or nowhere).
+                    continue
                 if self._exceeds_max_size(filepath):
                     continue
                 if self._is_gitignored(resolved_current / filename, False, gitignore_chain):
